@@ -58,6 +58,7 @@ def check_program(prog, cap):
     star_kw = dyn_common.star_before_keyword_walrus(d.tree)
     own_iter = dyn_common.own_iterable_reads(d.tree)
     split_reads = dyn_common.split_statement_reads(d.tree)
+    shared = suppview.shared_reads(src, d.filename, proj)
     for rid, pos, name, outcomes in d.reads():
         rscope = d.ins.read_scope[rid]
         sites = sorted({s for oc, s in outcomes if oc == 'ok' and s in d.ins.sites and d.ins.sites[s][2] == rscope})
@@ -67,6 +68,13 @@ def check_program(prog, cap):
             info['nontrivial'] = True
         fresh = suppview.fresh_read(src, d.filename, proj, pos)
         alts = {tuple(a[1]) for a in fresh['alts']} if isinstance(fresh, dict) else set()
+        # the same read when every read of the module is queried in source order on ONE analysis (the linter's usage):
+        # a definition has to be listed in both views
+        sh_view = shared.get(pos, fresh)
+        if sh_view != fresh and sh_view != 'E42':
+            info['shared_view_differs'] = info.get('shared_view_differs', 0) + 1
+            alts &= {tuple(a[1]) for a in sh_view['alts']} if isinstance(sh_view, dict) else set()
+            fresh = {'first query on a fresh analysis': fresh, 'all reads queried in source order on one analysis': sh_view}
         try:
             locs = flat_locs(assistant.location(proj, src, (pos[0], pos[1] + len(name)), d.filename), d.filename)
             loc_err = None
@@ -103,7 +111,7 @@ def check_program(prog, cap):
             if s not in alts:
                 problems.append(('definition-missing:%s:%s' % (kind, ctx),
                                  'read %s at %s obtains the value bound at %s (%s) in some execution; names_at lists %s' % (
-                                     name, pos, s, kind, sorted(alts) if isinstance(fresh, dict) else fresh)))
+                                     name, pos, s, kind, sorted(alts) if isinstance(fresh, dict) and 'alts' in fresh else fresh)))
                 continue
             if loc_err is not None:
                 problems.append(('location-raises:%s' % type(loc_err).__name__, 'location() at %s %s: %r' % (name, pos, loc_err)))
